@@ -52,7 +52,7 @@ def build_traces(path, tier, seed):
         meta[tid] = m
 
     edge = [5.5, 5.99, 6.0, 6.01, 6.5]
-    ncall = 36 if tier == "quick" else 300
+    ncall = 36 if tier == "quick" else 600
     nmax = 250 if tier == "quick" else 1500
     for i in range(ncall):
         n = gen.length(rng, 3, nmax)
@@ -81,7 +81,7 @@ def build_traces(path, tier, seed):
         add({"kind": kind, "dt": enc(dt), "xi": enc(xi), "a": enc_seq(a), "periods": enc_seq(periods), "raised": raised,
              "sd": enc_seq(sd), "sv": enc_seq(sv), "sa": enc_seq(sa), "q": 1},
             {"kind": kind, "n": n, "dt": dt, "xi": xi, "T_over_dt": [p / dt for p in periods], "container": type(container).__name__, "raised": raised, "shape": shape})
-    nobj = 14 if tier == "quick" else 120
+    nobj = 14 if tier == "quick" else 250
     for i in range(nobj):
         n = gen.length(rng, 4, 120 if tier == "quick" else 400)
         a, shape = gen.record(rng, n, amp=1.0)
@@ -130,7 +130,7 @@ def build_traces(path, tier, seed):
         u, v, acc = sdof.response_series(a, dt, np.array([T]), xi)
         add({"kind": "energy", "dt": enc(dt), "xi": enc(xi), "a": enc_seq(a), "T": enc(T), "v": enc_seq(v[0]), "ein": enc(float(ein[0])), "euke": enc(float(euke[0])), "raised": False},
             {"kind": "energy", "n": n, "dt": dt, "xi": xi, "T_over_dt": ratio, "shape": "ramp %.4f..%.4f" % (a0, a1), "ein": float(ein[0])})
-    nen = 20 if tier == "quick" else 200
+    nen = 20 if tier == "quick" else 400
     for i in range(nen):
         n = gen.length(rng, 3, 300 if tier == "quick" else 1500)
         a, shape = gen.record(rng, n, amp=1.0)
@@ -155,7 +155,7 @@ def build_traces(path, tier, seed):
 def run(tier, seed):
     rep = Report("C03", tier, seed)
     wd = workdir("C03")
-    tmax = 40
+    tmax = 40 if tier == "quick" else 60
     tab = os.path.join(wd, "ticks.txt")
     with warnings.catch_warnings():
         warnings.simplefilter("ignore")
